@@ -60,7 +60,7 @@ func TestReplay(t *testing.T) { harness.ReplayPath(t) }
 // harness.Rec.Exclude(name)); reproducers are /verif/replay/C07/kf-<name>.json. Replay evaluates a case as
 // written and never consults this map.
 var avoidKnown = map[string]bool{
-	cryptgen.FeatPrftBeforeMoof: true,
+	cryptgen.FeatPrftBeforeMoof: false, // repaired in /repo
 	cryptgen.FeatExplicitBase:   true,
 }
 
